@@ -104,6 +104,7 @@ type w1 struct {
 	prop   string
 	// C11: the sweep request that is waiting for its reply right now ("" = none)
 	sweepInFlight string
+	etcdIdx       int // C05 over etcd: how far the applied log has been read
 	s3     *sims3.Store
 	s3r    *sims3.Store // read replica (C44)
 	inner  *metadata.InMemoryStore
